@@ -372,6 +372,20 @@ impl WorldA {
                             kind_name(c.cfg.kind),
                             format!("conn {} dir {} ch {} msg {} item {} need {} leftover {}", i, d, ch, idx, item, need, leftover),
                         );
+                        // C11: traffic of one channel held back although the tick budget was not used up, while another channel
+                        // of the same connection is merely waiting for acknowledgements
+                        let other_waiting = self.conns[i].st[d].iter().enumerate().any(|(k2, c2)| {
+                            k2 != ch && c2.reliable() && c2.msgs.iter().any(|m2| !m2.released && (0..m2.items()).any(|it| !m2.acked[it] && m2.last_tx[it].is_some()))
+                        });
+                        obs.count("oracle.C11.channel_isolation");
+                        if other_waiting {
+                            obs.violate(
+                                "C11",
+                                "channel-delayed-by-stalled-traffic-of-another-channel",
+                                kind_name(c.cfg.kind),
+                                format!("conn {} dir {} ch {} msg {} withheld with {} budget bytes left while another channel waits for acks", i, d, ch, idx, leftover),
+                            );
+                        }
                     } else if leftover + later >= need {
                         obs.violate(
                             "C14",
